@@ -321,7 +321,7 @@ fn corruptions(kind: usize, id: &[u8; 20], out: &mut Vec<Op>) {
     push(String::new(), "empty");
     // valid checksums over something else
     push(encode5(hrp, &to5(id), BECH32M), "bech32m");
-    for other in ["cosmos", "celestiapub", "celestiavaloperpub", "celestiavalconspub", "celesti", "celestiaa", "celestiavalope", "celestiavaloperr", "c", "CELESTIA"] {
+    for other in ["cosmos", "celestiapub", "celestiavaloperpub", "celestiavalconspub", "celesti", "celestiaa", "celestiavalope", "celestiavaloperr", "c", "celestiavalconss"] {
         push(encode(&other.to_ascii_lowercase(), id), "other-prefix");
     }
     for k in 0..3 {
@@ -377,17 +377,22 @@ fn main() {
         } else {
             (0..all.len()).collect()
         };
-        let mut ops = vec![];
+        let mut jobs: Vec<(usize, [u8; 20], bool)> = vec![];
         for (n, id) in all.iter().enumerate() {
             for kind in 0..3 {
-                ops.push(Op::Round { kind, id: hex::encode(id) });
-                ops.push(Op::Parse { s: encode(PREFIXES[kind], id), family: "honest".into() });
-                if corrupt_ids.contains(&n) {
-                    corruptions(kind, id, &mut ops);
-                }
+                jobs.push((kind, *id, corrupt_ids.contains(&n)));
             }
         }
-        let mut rep = par_cases(ops, |op, rep| eval(&op, rep));
+        // cases are generated inside the workers
+        let mut rep = par_cases(jobs, |(kind, id, corrupt), rep| {
+            let mut ops = vec![Op::Round { kind, id: hex::encode(id) }, Op::Parse { s: encode(PREFIXES[kind], &id), family: "honest".into() }];
+            if corrupt {
+                corruptions(kind, &id, &mut ops);
+            }
+            for op in &ops {
+                eval(op, rep);
+            }
+        });
         rep.extra("ids", json!(all.len()));
         rep.extra("ids_with_corruptions", json!(corrupt_ids.len()));
         rep
